@@ -41,10 +41,12 @@ SymC01(C, E) ==
 
 SymC02(C, E) ==
   \/ \E j \in NodesOf(C) : Cardinality(Starts(E, j)) > 1
-  \/ \E s \in SchedsOf(C) : \E p \in RunEnds(E, s) : E[p].k = "run-end" /\ E[p].v = "true" /\
-        \E k \in KidsOf(C, s) : ~C.forever[k] /\ \/ FinPos(E, k) = 0 \/ FinPos(E, k) > p
-                                                   \* "returned, or raised while non-critical"
-                                                   \/ C.crit[k] /\ \E f \in Failed(E, k) : f < p /\ E[f].t < E[p].t
+  \/ \E s \in SchedsOf(C) : \E p \in RunEnds(E, s) : \E k \in KidsOf(C, s) :
+        /\ E[p].k = "run-end" /\ E[p].v = "true" /\ ~C.forever[k]
+        /\ \/ FinPos(E, k) = 0
+           \/ FinPos(E, k) > p
+           \* "returned, or raised while non-critical"
+           \/ C.crit[k] /\ \E f \in Failed(E, k) : f < p /\ E[f].t < E[p].t
 
 SymC03(C, E) == \E i \in Idx(E) : E[i].k = "top" /\ E[i].v \in {"deadlock", "livelock"}
 
